@@ -119,9 +119,16 @@ def split (x : Bytes) : List (Bytes × Ty) := splitAux (x.length + 1) x
 def digitVal (c : UInt8) : Nat :=
   if isDigit c then c.toNat - 48 else if 97 ≤ c.toNat then c.toNat - 87 else c.toNat - 55
 
-/-- `strtol(begin,&endptr,base)` on a run of digits of that base, as a natural number (no
-saturation at LONG_MAX: every value ≥ 2^63 is rejected by `code_point>0x10FFFF` either way) -/
-def strtolNat (base : Nat) (ds : Bytes) : Nat := ds.foldl (fun acc d => acc * base + digitVal d) 0
+/-- the mathematical value of a run of digits of that base -/
+def digitsValue (base : Nat) (ds : Bytes) : Nat := ds.foldl (fun acc d => acc * base + digitVal d) 0
+
+/-- `LONG_MAX` of the LP64 targets cppcms is built for -/
+def longMax : Nat := 2 ^ 63 - 1
+
+/-- `long code_point = strtol(begin,&endptr,base)` on a run of digits of that base: the value, saturated at
+`LONG_MAX` (ERANGE); `endptr` ends up at the `;` either way.  The result is kept in a `long` (no narrowing) before
+the range tests. -/
+def strtolNat (base : Nat) (ds : Bytes) : Nat := min (digitsValue base ds) longMax
 
 /-- returns the new type and the name -/
 def parseEntity (text : Bytes) : Ty × Bytes :=
